@@ -5,6 +5,7 @@ package agent
 import (
 	"bytes"
 	"github.com/postalsys/muti-metroo/internal/icmp"
+	"net"
 	"sort"
 
 	"github.com/postalsys/muti-metroo/internal/exit"
@@ -168,3 +169,9 @@ func (a *Agent) VerifStreamManager() *stream.Manager   { return a.streamMgr }
 
 // VerifICMPHandler exposes the ICMP exit handler (nil when ICMP is disabled).
 func (a *Agent) VerifICMPHandler() *icmp.Handler { return a.icmpHandler }
+
+// VerifNewMeshConn wraps an established stream in the net.Conn the ingress
+// side hands to its callers (SOCKS5, port forward listeners, Agent.Dial).
+func (a *Agent) VerifNewMeshConn(peerID identity.AgentID, streamID uint64, s *stream.Stream) net.Conn {
+	return &meshConn{agent: a, stream: s, peerID: peerID, streamID: streamID}
+}
